@@ -270,6 +270,47 @@ func C16(c *core.Ctx) {
 	if fn := p.Func("fw/table", "RibTable", "GetAllEntries"); fn != nil {
 		checkReturn(fn, "RibTable.GetAllEntries")
 	}
+	// the copy helpers read table storage: a copy is a copy of one consistent state only
+	// when it is made with the table's lock held — wherever the call sits (a lookup split
+	// into a locked walk that hands up the live list and a copy made by the caller after
+	// the walk has returned, and released the lock, copies a list that an update is
+	// shifting in place)
+	nCopy := 0
+	for _, fn := range p.FuncsIn(pkg) {
+		if strings.HasSuffix(p.File(fn.Pos()), "_test.go") {
+			continue
+		}
+		core.Instrs(fn, func(in ssa.Instruction) {
+			cl, ok := in.(*ssa.Call)
+			if !ok {
+				return
+			}
+			id, ok := core.Callee(&cl.Call)
+			if !ok || id.Pkg != "fw/table" || (id.Name != "copyNextHops" && id.Name != "snapshot") {
+				return
+			}
+			src, args := core.CallArgs(&cl.Call)
+			if src == nil && len(args) > 0 {
+				src = args[0]
+			}
+			if src != nil {
+				switch core.Strip(src).(type) {
+				case *ssa.MakeSlice, *ssa.Alloc:
+					return // a list built in this call
+				}
+			}
+			nCopy++
+			h := held[fn][in]
+			okHeld := false
+			for k := range h {
+				if strings.HasSuffix(k, ":FIB") || strings.HasSuffix(k, ":RibTable.mutex") {
+					okHeld = true
+				}
+			}
+			c.Decide(okHeld, "R16.2", "copy-made-under-the-table-lock:"+core.FuncName(fn)+":"+id.Name, c.Pos(in), "the copy is made with the table's lock held ("+h.String()+")", core.FuncName(fn)+" copies table storage with "+id.Name+" while no table lock is held (lockset "+h.String()+"): the list it reads is shifted / rewritten in place by an update under the write lock — a lookup can return a face twice, miss one, or a torn entry")
+		})
+	}
+	c.Floor("R16.2", "calls of the copy helpers in fw/table", nCopy, 3)
 	// helpers really copy
 	if fn := c.Fn("R16.2", "fw/table", "", "copyNextHops"); fn != nil {
 		okCopy := false
